@@ -33,6 +33,7 @@ fn map_layout_of(cap: usize) -> Layout {
         3 => regs::map_layout::<3>(),
         4 => regs::map_layout::<4>(),
         6 => regs::map_layout::<6>(),
+        300 => regs::map_layout::<300>(),
         _ => unreachable!(),
     }
 }
@@ -44,6 +45,7 @@ fn set_layout_of(cap: usize) -> Layout {
         3 => regs::set_layout::<3>(),
         4 => regs::set_layout::<4>(),
         6 => regs::set_layout::<6>(),
+        300 => regs::set_layout::<300>(),
         _ => unreachable!(),
     }
 }
@@ -142,6 +144,7 @@ fn exec(regs: &mut Regs, cx: &mut Cx, op: &Op) -> (String, Vec<usize>, Vec<usize
                         AnyMap::C3(b) => AnyMap::C3(regs::Caged::new(ctl::mm(|| b.c.clone()))),
                         AnyMap::C4(b) => AnyMap::C4(regs::Caged::new(ctl::mm(|| b.c.clone()))),
                         AnyMap::C6(b) => AnyMap::C6(regs::Caged::new(ctl::mm(|| b.c.clone()))),
+                        AnyMap::C300(b) => AnyMap::C300(regs::Caged::new(ctl::mm(|| b.c.clone()))),
                     };
                     regs.ml[*dst] = regs.ml[i];
                     let old = std::mem::replace(&mut regs.m[*dst], c);
@@ -161,6 +164,7 @@ fn exec(regs: &mut Regs, cx: &mut Cx, op: &Op) -> (String, Vec<usize>, Vec<usize
                         AnyMap::C3(_) => ops::serde_rt::decode_map::<3>(&bytes).map(|m| AnyMap::C3(regs::Caged::new(m))),
                         AnyMap::C4(_) => ops::serde_rt::decode_map::<4>(&bytes).map(|m| AnyMap::C4(regs::Caged::new(m))),
                         AnyMap::C6(_) => ops::serde_rt::decode_map::<6>(&bytes).map(|m| AnyMap::C6(regs::Caged::new(m))),
+                        AnyMap::C300(_) => ops::serde_rt::decode_map::<300>(&bytes).map(|m| AnyMap::C300(regs::Caged::new(m))),
                     };
                     let st = match c {
                         Some(c) => {
@@ -188,6 +192,7 @@ fn exec(regs: &mut Regs, cx: &mut Cx, op: &Op) -> (String, Vec<usize>, Vec<usize
                         AnyMap::C3(_) => AnyMap::C3(regs::Caged::new(ops::map_from_iter::<3>(*pulls, xs))),
                         AnyMap::C4(_) => AnyMap::C4(regs::Caged::new(ops::map_from_iter::<4>(*pulls, xs))),
                         AnyMap::C6(_) => AnyMap::C6(regs::Caged::new(ops::map_from_iter::<6>(*pulls, xs))),
+                        AnyMap::C300(_) => AnyMap::C300(regs::Caged::new(ops::map_from_iter::<300>(*pulls, xs))),
                     };
                     let old = std::mem::replace(&mut regs.m[i], c);
                     ctl::mm(|| drop(old));
@@ -212,6 +217,7 @@ fn exec(regs: &mut Regs, cx: &mut Cx, op: &Op) -> (String, Vec<usize>, Vec<usize
                         AnySet::C3(b) => AnySet::C3(regs::Caged::new(ctl::mm(|| b.c.clone()))),
                         AnySet::C4(b) => AnySet::C4(regs::Caged::new(ctl::mm(|| b.c.clone()))),
                         AnySet::C6(b) => AnySet::C6(regs::Caged::new(ctl::mm(|| b.c.clone()))),
+                        AnySet::C300(b) => AnySet::C300(regs::Caged::new(ctl::mm(|| b.c.clone()))),
                     };
                     regs.sl[*dst] = regs.sl[i];
                     let old = std::mem::replace(&mut regs.s[*dst], c);
@@ -226,6 +232,7 @@ fn exec(regs: &mut Regs, cx: &mut Cx, op: &Op) -> (String, Vec<usize>, Vec<usize
                         AnySet::C3(_) => AnySet::C3(regs::Caged::new(ops::set_from_iter::<3>(*pulls, xs))),
                         AnySet::C4(_) => AnySet::C4(regs::Caged::new(ops::set_from_iter::<4>(*pulls, xs))),
                         AnySet::C6(_) => AnySet::C6(regs::Caged::new(ops::set_from_iter::<6>(*pulls, xs))),
+                        AnySet::C300(_) => AnySet::C300(regs::Caged::new(ops::set_from_iter::<300>(*pulls, xs))),
                     };
                     let old = std::mem::replace(&mut regs.s[i], c);
                     ctl::mm(|| drop(old));
@@ -244,6 +251,7 @@ fn exec(regs: &mut Regs, cx: &mut Cx, op: &Op) -> (String, Vec<usize>, Vec<usize
                         AnySet::C3(_) => ops::serde_rt::decode_set::<3>(&bytes).map(|m| AnySet::C3(regs::Caged::new(m))),
                         AnySet::C4(_) => ops::serde_rt::decode_set::<4>(&bytes).map(|m| AnySet::C4(regs::Caged::new(m))),
                         AnySet::C6(_) => ops::serde_rt::decode_set::<6>(&bytes).map(|m| AnySet::C6(regs::Caged::new(m))),
+                        AnySet::C300(_) => ops::serde_rt::decode_set::<300>(&bytes).map(|m| AnySet::C300(regs::Caged::new(m))),
                     };
                     let st = match c {
                         Some(c) => {
@@ -267,6 +275,7 @@ fn exec(regs: &mut Regs, cx: &mut Cx, op: &Op) -> (String, Vec<usize>, Vec<usize
                         AnySet::C3(x) => AnySet::C3(regs::Caged::new(with_set!(b, y => ops::set_sub(&x.c, &y.c)))),
                         AnySet::C4(x) => AnySet::C4(regs::Caged::new(with_set!(b, y => ops::set_sub(&x.c, &y.c)))),
                         AnySet::C6(x) => AnySet::C6(regs::Caged::new(with_set!(b, y => ops::set_sub(&x.c, &y.c)))),
+                        AnySet::C300(x) => AnySet::C300(regs::Caged::new(with_set!(b, y => ops::set_sub(&x.c, &y.c)))),
                     };
                     regs.sl[*dst] = regs.sl[i];
                     let old = std::mem::replace(&mut regs.s[*dst], c);
@@ -330,7 +339,7 @@ fn new_regs(cfg: &parse::CaseCfg) -> Option<Regs> {
 }
 
 fn menu_ok(c: usize) -> bool {
-    matches!(c, 0 | 1 | 2 | 3 | 4 | 6)
+    matches!(c, 0 | 1 | 2 | 3 | 4 | 6 | 300)
 }
 
 fn render_events() -> String {
